@@ -69,7 +69,7 @@ def build(config, tier):
                     "    check!(cn[0] == 1.0 && cn[1] == 1.0 && cf[0] == -1.0 && cf[1] == -1.0, \"left/right/bottom/top planes map to +-1\");\n"
                     "    check!(cn[2] == (%s as %s) && cf[2] == (%s as %s), \"near / far depth\");") % (
                 t, pow2, t, pow2, t, t, t, t, t, pow2, t, pow2, T, fn, V4, zsign, V4, zsign, dnear, t, dfar, t)
-            obs.append(Ob("c11_%s_%s_%s" % (config, T.lower(), fn), PROP, body, fn="%s::%s" % (T, fn), kind="lemma", solver="cadical", stubs=["sse"], cls="lattice", clauses=3, tier=tr,
+            obs.append(Ob("c11_%s_%s_%s" % (config, T.lower(), fn), PROP, body, fn="%s::%s" % (T, fn), kind="lemma", solver="cadical", stubs=["sse"], cls="lattice", clauses=3, tier="quick",
                           desc="%s::%s: box planes -> +-1 in x and y, near -> %s, far -> %s, w == 1; exact on power-of-two extents" % (T, fn, dnear, dfar)))
     # ---- look_to / look_at
     ltypes = [("Mat4", "Vec3", 32, 16, False), ("Affine3A", "Vec3", 32, 12, True)] + ([("DMat4", "DVec3", 64, 16, False), ("DAffine3", "DVec3", 64, 12, True)] if sse else [])
